@@ -86,18 +86,24 @@ PROPS = {
         "trusted_base": _TRUSTED,
     },
     "C12": {
-        "module": "HqModel.Props.C12",
-        "theorems": ["HqModel.C12.c12_prune_equiv_partial", "HqModel.C12.c12_append", "HqModel.C12.c12_wf",
-                     "HqModel.C12.c12_f12_witness", "HqModel.C12.c12_f25_witness", "HqModel.C12.c12_full_statement_false"],
+        "module": "HqModel.Props.C12Fixed",
+        "theorems": ["HqModel.C12.c12_prune2_equiv_partial", "HqModel.C12.c12_prune2_restore", "HqModel.C12.c12_append2",
+                     "HqModel.C12.c12_wf2_append", "HqModel.C12.c12_prune2_twice", "HqModel.C12.c12_wf2", "HqModel.C12.c12_prune2_idem",
+                     "HqModel.C12.c12_f12_regression", "HqModel.C12.c12_f25_witness2", "HqModel.C12.c12_full2_statement_false",
+                     "HqModel.C12.c12_prune_equiv_partial", "HqModel.C12.c12_f12_witness"],
         "parts": [dict(_PART, tags=["pn", "prec", "res", "job", "cnt", "task", "sub", "adj", "core", "queue"],
                        clauses=["c12."])],
         "assumptions": [
             "live sets are the ones `handle_prune_journal` computes: jobs of the State that are not terminated, workers that "
             "are connected; prune is requested between two server actions",
-            "c12_prune_equiv is proved as `_partial` at the level of the StateRestorer (`SameView`: all job entries up to crash "
-            "counters, queues, uid) for EVERY journal that restores; the two missing components are refuted by decide-witnesses "
-            "and registered as known findings: crash counters (F12: WorkerLost of no-longer-live workers dropped) and "
-            "queue_to_worker_resources (F25: WorkerConnected of no-longer-live allocation workers dropped)",
+            "c12_prune2_equiv_partial (the code after fix 13acddd; prune2 = the stateful prune that keeps the WorkerLost of every worker "
+            "named in a kept TaskStarted): SameView2 = all job entries INCLUDING crash counters, job tables equal as lists, queues, uid, for "
+            "EVERY journal that restores, and c12_prune2_restore at the level of restore (jobs, TaskSubmit batches with adjust maps); the "
+            "one missing component is queue_to_worker_resources (known finding F25: WorkerConnected of no-longer-live allocation workers "
+            "dropped), refuted by c12_f25_witness2; c12_wf2 (syntactic intersection law) assumes that no worker which ran a task of a live "
+            "job is live at the second prune without having been live at the first; c12_prune2_twice / c12_prune2_idem need no such "
+            "assumption; c12_prune_equiv_partial / c12_f12_witness are the statements about the code BEFORE the fix (F12), "
+            "c12_f12_regression shows the witness repaired",
             "the step from the restorer state to Job / TaskSubmit values is the function restoreJobs of the model (it reads the "
             "crash counters only in the adjust map, queue_to_worker_resources only for Queue.worker_resources)",
         ],
